@@ -39,11 +39,62 @@ REL_TYPES = ["related-to", "uses", "targets"]
 # --------------------------------------------------------------------------
 # Coq terms
 
+def members(x):
+    t = x["t"]
+    if t in ("mem", "fs"):
+        return []
+    return x["ms"] if t == "comp" else [x[k] for k in ("store", "source") if x.get(k)]
+
+
+def sub(x, path):
+    for i in path:
+        x = members(x)[i]
+    return x
+
+
+def node_paths(x, prefix=()):
+    out = [list(prefix)]
+    for i, m in enumerate(members(x)):
+        out += node_paths(m, prefix + (i,))
+    return out
+
+
+def steps_of(case):
+    return case.get("steps", case.get("reads", []))
+
+
+READ_OPS = ("get", "all", "query", "rels", "related", "creator")
+
+
+def read_steps(case):
+    return [r for r in steps_of(case) if r["op"] in READ_OPS]
+
+
+def apply_step(state, r):
+    """attach / detach a filter, or add later content: on the description of the sources"""
+    node = sub(state, r.get("at", []))
+    if r["op"] == "addf":
+        if r["f"] not in node.setdefault("af", []):
+            node["af"].append(r["f"])
+    elif r["op"] == "rmf":
+        if r["f"] in node.get("af", []):
+            node["af"].remove(r["f"])
+    elif r["op"] == "add":
+        if node["t"] == "fs" or node.get("wrap") == "store":
+            node["adds"].append(r["x"])
+            node.setdefault("_extra", []).append(r["x"])
+
+
 def coq_src(x, table):
     t = x["t"]
     af = base.coq_filters(x.get("af", []))
     if t in ("mem", "fs"):
-        adds = common.coq_list([base.coq_segs(a, table) for a in x["adds"]])
+        if "_name" in x:
+            adds = x["_name"]
+            if x.get("_extra"):
+                adds = "(%s ++ %s)" % (adds, common.coq_list([base.coq_segs(a, table) for a in x["_extra"]]))
+        else:
+            adds = common.coq_list([base.coq_segs(a, table) for a in x["adds"]])
         return "(%s %s %s)" % ("XMem" if t == "mem" else "XFs", af, adds)
     if t == "comp":
         return "(XComp %s %s)" % (af, common.coq_list([coq_src(m, table) for m in x["ms"]]))
@@ -76,14 +127,37 @@ def coq_read(r, table):
 
 
 def c18_term(case):
+    """one Gallina string: the reads in order, each evaluated on the source (or member) as it is at that point of
+    the sequence; the leaves' initial contents are shared through let-bindings"""
+    import copy
     table = {}
-    src = coq_src(case["src"], table)
-    reads = common.coq_list([coq_read(r, table) for r in case["reads"]])
-    return "run_src MODE %s RM %s %s" % (base.coq_table(table), src, reads)
+    state = copy.deepcopy(case["src"])
+    defs = []
+    for n, leaf in enumerate(leaves(state)):
+        leaf["_name"] = "L%d" % n
+        leaf["_extra"] = []
+        defs.append("let L%d := %s in" % (n, common.coq_list([base.coq_segs(a, table) for a in leaf["adds"]])))
+    segs = []
+    cur = {"path": None, "reads": []}
 
+    def flush():
+        if cur["reads"]:
+            segs.append("run_src MODE TBL RM %s %s" % (coq_src(sub(state, cur["path"]), table), common.coq_list(cur["reads"])))
+        cur["reads"] = []
 
-# --------------------------------------------------------------------------
-# generator
+    for r in steps_of(case):
+        if r["op"] in READ_OPS:
+            path = r.get("at", [])
+            if cur["path"] != path:
+                flush()
+                cur["path"] = path
+            cur["reads"].append(coq_read(r, table))
+        else:
+            flush()
+            apply_step(state, r)
+    flush()
+    return "let TBL := %s in %s cat %s" % (base.coq_table(table), " ".join(defs), common.coq_list(segs))
+
 
 def leaves(x):
     t = x["t"]
@@ -186,12 +260,85 @@ def gen_leaf(rng, objs, kind=None):
 def rand_filter(rng, pop, nodes):
     r = rng.random()
     if r < 0.4:
-        return {"k": "type", "v": rng.choice(["identity", "campaign", "relationship", "x-reg"])}
-    if r < 0.6:
-        return {"k": "pay", "v": rng.randint(1, max(1, len(pop)))}
-    if r < 0.8 and nodes:
-        return {"k": "id", "v": rng.choice(nodes)[1]}
-    return {"k": "prop", "p": "relationship_type", "v": rng.choice(REL_TYPES)}
+        f = {"k": "type", "v": rng.choice(["identity", "campaign", "relationship", "x-reg"])}
+    elif r < 0.6:
+        f = {"k": "pay", "v": rng.randint(1, max(1, len(pop)))}
+    elif r < 0.8 and nodes:
+        f = {"k": "id", "v": rng.choice(nodes)[1]}
+    else:
+        f = {"k": "prop", "p": "relationship_type", "v": rng.choice(REL_TYPES)}
+    # every operator of FILTER_OPS that applies to the property
+    return base.vary_op(rng, f, ["identity", "campaign", "relationship", "x-reg", "marking-definition"],
+                        [n[1] for n in nodes] or [base.POOL["identity"][5]], max(1, len(pop)))
+
+
+def later_spec(rng, pop, leaf):
+    """a new version of a node, or a new relationship version, that the leaf does not hold yet"""
+    held = {(o["id"], base.rec_of(o)["inst"]) for o in specs_of_leaf(leaf)}
+    cands = [o for o in pop if o.get("mod") and o["cls"] != "unreg"]
+    rng.shuffle(cands)
+    for o in cands:
+        us = base.rec_of(o)["inst"] + rng.choice([1000, 2000, 60 * 10 ** 6, -5000, 86400 * 10 ** 6])
+        c = dict(o)
+        c.pop("moddt", None)
+        c["mod"] = base.storeutil.ts_text(us, "ms")
+        c["pay"] = 900 + rng.randint(0, 90)
+        if (c["id"], base.rec_of(c)["inst"]) not in held:
+            return c
+    return None
+
+
+def gen_sequence(rng, src, pop, nodes, ids):
+    """a second phase on the SAME source objects: filters attached / detached at any level, later additions to
+    the stores under the leaves, and reads of the top source and of members in between"""
+    import copy
+    steps = []
+    state = copy.deepcopy(src)
+    paths = node_paths(src)
+    attached = []
+
+    def reads_at(path):
+        out = []
+        for i in rng.sample(ids, min(len(ids), 2)):
+            out.append({"op": "get", "id": i, "at": path})
+            out.append({"op": "all", "id": i, "at": path})
+        out.append({"op": "query", "q": [], "at": path})
+        if rng.random() < 0.5:
+            out.append({"op": "query", "q": [rand_filter(rng, pop, nodes)], "at": path})
+        return out
+
+    for _ in range(rng.randint(2, 5)):
+        r = rng.random()
+        if r < 0.35:
+            path = rng.choice(paths)
+            f = rand_filter(rng, pop, nodes)
+            st = {"op": "addf", "at": path, "f": f}
+            if f not in sub(state, path).get("af", []):
+                attached.append((path, f))
+            steps.append(st)
+            apply_step(state, st)
+        elif r < 0.5 and attached:
+            path, f = attached.pop(rng.randrange(len(attached)))
+            st = {"op": "rmf", "at": path, "f": f}
+            steps.append(st)
+            apply_step(state, st)
+        elif r < 0.8:
+            lp = [p for p in paths if sub(state, p)["t"] == "fs" or sub(state, p).get("wrap") == "store"]
+            if lp:
+                path = rng.choice(lp)
+                o = later_spec(rng, pop, sub(state, path))
+                if o is not None:
+                    st = {"op": "add", "at": path, "x": {"t": "dict", "o": o}}
+                    steps.append(st)
+                    apply_step(state, st)
+                    steps += [{"op": "get", "id": o["id"], "at": path}, {"op": "all", "id": o["id"], "at": path},
+                              {"op": "get", "id": o["id"]}, {"op": "all", "id": o["id"]}]
+        # reads: the top source, then a member directly (what was handed down must not stick to it)
+        steps += reads_at([])
+        inner = [p for p in paths if p]
+        if inner:
+            steps += reads_at(rng.choice(inner))
+    return steps
 
 
 def gen_case(rng, shape=None):
@@ -264,8 +411,8 @@ def gen_case(rng, shape=None):
             r["ao"] = ao
         reads.append(r)
         r2 = dict(r, op="related")
-        if rng.random() < 0.3:
-            r2["fl"] = [rand_filter(rng, pop, nodes)]
+        if rng.random() < 0.5:
+            r2["fl"] = [rand_filter(rng, pop, nodes) for _ in range(rng.choice([1, 1, 2]))]
         reads.append(r2)
         if (so, to) != (False, False) and rng.random() < 0.5:
             reads.append(dict(r2, so=False, to=False))
@@ -279,7 +426,9 @@ def gen_case(rng, shape=None):
             c = dict(o)
             c.pop("moddt", None)
             reads.append({"op": "creator", "o": c, "oform": "dict"})
-    return {"kind": "c18", "src": src, "reads": reads, "shape": shape}
+    if rng.random() < 0.5 and has_members(src):
+        reads += gen_sequence(rng, src, pop, nodes, ids)
+    return {"kind": "c18", "src": src, "steps": reads, "shape": shape}
 
 
 def witness_case():
@@ -300,9 +449,14 @@ def witness_case():
 
 
 def permuted(rng, case):
-    """the same composite with its members attached in another order (reads: lookups only)"""
-    c = {"kind": "c18", "shape": case["shape"] + "/perm", "src": dict(case["src"]),
-         "reads": [r for r in case["reads"] if r["op"] in ("get", "all", "query")]}
+    """the same composite with its members attached in another order (the lookups of the first phase only)"""
+    first = []
+    for r in steps_of(case):
+        if r["op"] not in READ_OPS:
+            break
+        if r["op"] in ("get", "all", "query") and not r.get("at"):
+            first.append(r)
+    c = {"kind": "c18", "shape": case["shape"] + "/perm", "src": dict(case["src"]), "steps": first}
     ms = list(c["src"]["ms"])
     rng.shuffle(ms)
     c["src"]["ms"] = ms
@@ -383,18 +537,33 @@ def got_keys(got):
 
 
 def oracle_case(case, impl):
+    import copy
     if isinstance(impl, dict):
         return []
-    src = case["src"]
     out = []
-    if not has_members(src):
-        return out          # a composite without data sources raises: documented
+    state = copy.deepcopy(case["src"])
+    results = list(impl)
+    for r in steps_of(case):
+        if r["op"] in READ_OPS:
+            got = results.pop(0) if results else None
+            node = sub(state, r.get("at", []))
+            if got is not None and has_members(node):
+                out += judge_read(case, node, r, got)
+        else:
+            apply_step(state, r)
+    return out
+
+
+def judge_read(case, src, r, got):
+    """one read on the source `src` (the top source or a member, as it is at this point of the sequence)"""
+    out = []
     P = pop_of(src, [])
     filtered = any_filters(src)
     composite = src["t"] in ("comp", "env")
 
     def viol(what, finding=None):
-        out.append(Violation(what, {"kind": "c18-case", "case": case}, finding=finding))
+        where = "member %s of the source: " % r["at"] if r.get("at") else ""
+        out.append(Violation(where + what, {"kind": "c18-case", "case": case}, finding=finding))
 
     def check_set(what, got, expect, finding_if=None):
         """got: impl list; expect: records; as sets of (id, version), each at most once"""
@@ -420,7 +589,7 @@ def oracle_case(case, impl):
         if missing:
             viol("%s misses %s" % (what, missing[0]), finding_if(seen) if finding_if else None)
 
-    for r, got in zip(case["reads"], impl):
+    for r, got in [(r, got)]:
         op = r["op"]
         if op == "get":
             recs = [x for x in P if x["id"] == r["id"]]
@@ -498,8 +667,15 @@ def order_oracle(case, impl, pcase, pimpl):
     out = []
     if isinstance(impl, dict) or isinstance(pimpl, dict):
         return out
-    a = {(r["op"], r.get("id"), str(r.get("q"))): g for r, g in zip(case["reads"], impl)}
-    for r, g in zip(pcase["reads"], pimpl):
+    a = {}
+    results = list(impl)
+    for r in steps_of(case):                 # the first phase only: before anything is attached or added
+        if r["op"] not in READ_OPS:
+            break
+        g = results.pop(0)
+        if not r.get("at"):
+            a.setdefault((r["op"], r.get("id"), str(r.get("q"))), g)
+    for r, g in zip(read_steps(pcase), pimpl):
         g0 = a.get((r["op"], r.get("id"), str(r.get("q"))))
         if isinstance(g, str) or isinstance(g0, str) or g0 is None:
             continue
@@ -521,12 +697,12 @@ def nontrivial(case, impl):
     if isinstance(impl, dict):
         return False
     multi = len(leaves(case["src"])) >= 2
-    nav = any(isinstance(g, list) and g for r, g in zip(case["reads"], impl) if r["op"] in ("rels", "related", "creator"))
+    nav = any(isinstance(g, list) and g for r, g in zip(read_steps(case), impl) if r["op"] in ("rels", "related", "creator"))
     return (multi or case["shape"] == "single") and nav
 
 
 def add_flags(case):
-    return [False] * len(case["reads"])
+    return [False] * len(read_steps(case))
 
 
 # --------------------------------------------------------------------------
@@ -753,8 +929,10 @@ def check(run):
         "three relationship types, ends changing between versions), unversioned objects, created_by_ref; partitioned "
         "with overlapping copies (some with other content) over 1-4 members (MemorySource, MemoryStore, "
         "FileSystemSource, FileSystemStore, bundlify) attached to a CompositeDataSource, a nested composite or an "
-        "Environment(store, source), with attached filters at any level; every case also with the members attached in "
-        "another order; reads: get / all_versions per id, queries, relationships and related_to per node with all "
+        "Environment(store, source), with attached filters (all operators) at any level; every case also with the "
+        "members attached in another order; half of the cases continue on the SAME source objects with a sequence of "
+        "add_filter / remove_filter at any level, later additions to the stores under the leaves, and reads of the top "
+        "source and of members directly in between; reads: get / all_versions per id, queries, relationships and related_to per node with all "
         "option combinations (type, source_only, target_only, both, extra filters; id / dict / object argument), "
         "creator_of; non-trivial = some navigation read returns an object")
     with common.Lock():
@@ -883,8 +1061,11 @@ def replay(payload):
     probe = common.run_impl("c11_impl", [{"kind": "probe"}], procs=1)[0]
     base.NAIVE_KEPT[0] = bool(probe.get("naive_kept", True))
     impl = common.run_impl("c18_impl", [case], procs=1)[0]
-    print("replay C18 %s, %d reads" % (case["shape"], len(case["reads"])))
-    for rd, g in zip(case["reads"], impl if isinstance(impl, list) else []):
+    print("replay C18 %s, %d steps" % (case["shape"], len(steps_of(case))))
+    for rd in steps_of(case):
+        if rd["op"] not in READ_OPS:
+            print("  %s" % {k: v for k, v in rd.items() if k != "x"})
+    for rd, g in zip(read_steps(case), impl if isinstance(impl, list) else []):
         print("  %s -> %s" % ({k: v for k, v in rd.items() if k not in ("o", "ao")}, g))
     vs = oracle_case(case, impl)
     if r.get("kind") == "c18-order":
